@@ -292,6 +292,49 @@ def observers(ctx, repo):
     ctx.ob("R5", "observer-list::who-may-write", writers <= allowed, f"observer list `{attr}` also modified by {sorted(writers - allowed)}")
 
 
+def temperature_notifications(ctx, repo, rule):
+    """for temperatures the statement compares the STORED reading: a unit item and a temperature item are built by their
+    own constructors on a model structure, an observer is registered, and status_block_changed is interpreted for block
+    pairs in which the unit flips, the stored word changes, both, or neither"""
+    from ..absint import ClassRef, Interp, Native, Obj, PyRaise, Undecided
+    from ..core import AnalysisError
+    gc = repo.cls("GeckoConstants")
+    KEY = repo.fold(gc.consts["KEY_TEMP_UNITS"], gc.mod, gc)
+
+    def block(unit_bit, word):
+        b = bytearray(64)
+        b[13] = 0x04 if unit_bit else 0
+        b[15], b[16] = word >> 8, word & 0xFF
+        return bytes(b)
+    cases = (("unit-flips::word-unchanged", block(0, 670), block(1, 670), 0, "the stored reading is the same: the item stays silent although the presented number changes with the unit"),
+             ("unit-flips::word-changes-to-same-number", block(0, 720), block(1, 80), 1, "the stored reading differs (720 -> 80) although both present as 40.0"),
+             ("same-unit::word-changes", block(0, 670), block(0, 671), 1, "the stored reading differs"),
+             ("same-unit::word-unchanged::other-bytes-change", block(0, 670)[:20] + b"\x55" * 44, block(0, 670), 0, "neither unit nor reading changed"),
+             ("fahrenheit::word-changes", block(1, 680), block(1, 700), 1, "the stored reading differs"))
+    fi = repo.method("GeckoStructAccessor", "status_block_changed")
+    n = 0
+    for key, prev, new, want, why in cases:
+        it = Interp(repo, max_depth=12)
+        calls = []
+        st = Obj(None, {"status_block": new, "accessors": {}}, name="struct")
+        try:
+            units = it.apply(ClassRef(repo.cls("GeckoEnumStructAccessor")), [st, KEY, 13, 2, ["C", "F"], None, 2, "ALL"], {})
+            temp = it.apply(ClassRef(repo.cls("GeckoTempStructAccessor")), [st, "SetpointG", 15, "ALL"], {})
+            st.attrs["accessors"] = {KEY: units, "SetpointG": temp}
+            it.call(repo.method("GeckoTempStructAccessor", "watch"), temp, [Native(lambda a, k: calls.append(tuple(a[1:])), "observer")])
+            it.steps = 0
+            it.call(repo.method("GeckoTempStructAccessor", "status_block_changed"), temp, [0, 64, prev])
+        except PyRaise as e:
+            calls.append(("raises", e.what))
+        except Undecided as e:
+            raise AnalysisError(f"GeckoTempStructAccessor.status_block_changed on the model structure: {e}")
+        n += 1
+        ctx.ob(rule, f"temperature::{key}", len(calls) == want and not any(c and c[0] == "raises" for c in calls),
+               f"temperature item, {key.replace('::', ', ')}: {len(calls)} notification(s) {calls[:2]}, expected {want} - {why}", fi.loc,
+               sample={"rule": rule, "case": key, "notifications": len(calls)})
+    ctx.floor(rule, "temperature block pairs interpreted", n, 5)
+
+
 def check(ctx):
     repo = Repo()
     ctx.rule("R1", "swap-before-notify in both replace_status_block_segment: previous block captured, new block = exact splice, assignment dominates the notification loop, no suspension")
@@ -303,6 +346,8 @@ def check(ctx):
     from . import c01 as _c01
     _c01.async_assembly(ctx.borrowed("R6", "C01", only=("R1", "R2")), repo)
     _c01.sync_assembly(ctx.borrowed("R6", "C01", only=("R1", "R2")), repo)
+    ctx.rule("R7", "temperatures notify iff the stored reading differs: unit item and temperature item built by their constructors on a model structure, status_block_changed interpreted on block pairs where the unit flips with the word unchanged (silent), the word changes to one presenting the same number under the new unit (one notification), the word changes (one), nothing relevant changes (silent)")
+    temperature_notifications(ctx, repo, "R7")
     for c in STRUCT_CLASSES:
         swap_then_notify(ctx, repo, c)
     decision(ctx, repo)
